@@ -101,5 +101,5 @@ func intToJSON(i int64) json.Number {
 }
 
 func uintToJSON(i uint64) json.Number {
-	return json.Number(strconv.Itoa(int(i)))
+	return json.Number(strconv.FormatUint(i, 10))
 }
